@@ -28,6 +28,7 @@ def c16(tier):
     chains = [(7, 3, 0), (7, 3, 1), (3, 4, 0), (3, 4, 2)] if tier == "quick" else [(7, 3, 0), (7, 3, 1), (3, 4, 0), (3, 4, 2), (3, 4, 1), (12, 3, 0), (5, 4, 1), (7, 4, 2)]
     for c in chains:
         jobs.append(Job("h_c04::array_chain", c, dict(S2), budget_s=3000, validate=30))
+    jobs.append(Job("h_c04::observer_chain", (7, 2) if tier == "quick" else (7, 3), dict(S2), budget_s=3000, validate=20))
     return dict(
         jobs=jobs,
         bounds={"len_old": "0..%d" % n, "len_new": "0..%d" % n, "elements": "abstract atoms, repetitions allowed (all equality patterns)",
@@ -205,6 +206,8 @@ def c18(tier):
         jobs += [Job("h_c18::independent", (3, 1, 1), dict(base, nd_budget=1), budget_s=6000, validate=20, native_repeats=3),
                  Job("h_c18::independent", (2, 1, 0), dict(base, nd_budget=2), budget_s=6000, validate=20, native_repeats=3)]
     jobs += [Job("h_tree::tree_rule", (2, 6, 2), {}, budget_s=1500, validate=20)]
+    # warm vs cold caches with symbolic capacities 1..3: an observer that read earlier receives several versions at once
+    jobs.append(Job("h_c04::observer_chain", (7, 2), dict(S2), budget_s=3000, validate=20))
     return dict(jobs=jobs, bounds={"history": "commit, commit (second document among k orders, optionally staged-discarded-restaged), concurrent commit on a second replica, exchange, reopen",
                                    "compared": "a run with canonical orders and default caches vs a run in which at most nd_budget iteration events (hash-table iterations, visits of the sequentialised worker pool) "
                                                "use the reverse order, the storage lists in reverse order, and both cache capacities are a symbolic value in 1..3",
@@ -254,6 +257,7 @@ def c13(tier):
 def c14(tier):
     combos = [(4, 0)] if tier == "quick" else [(4, 0), (4, 1), (8, 0)]
     jobs = [Job("h_hist::time_travel", c, dict(S2), budget_s=3000, validate=30) for c in combos]
+    jobs.append(Job("h_hist::time_travel_rounds", (2 if tier == "quick" else 4,), dict(S2), budget_s=3000, validate=5))
     return dict(jobs=jobs, bounds={"history": "as C13 (5 blocks, one concurrent pair, one merge commit); every head set replica a ever had (single heads and the two-head set after the merge) is travelled to",
                                    "combos [k, symbolic values]": [list(c) for c in combos]},
                 assumptions=S2_ASSUME, note="melda.rs reload_until / new_until / reload / get_value / get_parent_revision from MIR")
